@@ -76,27 +76,48 @@ FixedAcceptable(fwd, rev, bidir, block) == FixedClauses(fwd, rev, bidir, block) 
 FixedAcceptableSet(fwd, rev, bidir) == {b \in {NoBlock, NotFeas} : FixedAcceptable(fwd, rev, bidir, b)}
 
 -----------------------------------------------------------------------------
+(* Equalization offsets.  A mode's figure (worst) is the one of the mode propagated with ITS OWN equalization     *)
+(* offset.  A transceiver may define, for one baud rate, modes with different offsets; the automatic selection    *)
+(* propagates a baud rate once per offset defined for it, so a mode may be looked at under the offset of another   *)
+(* mode of its baud rate.  The rule "feasible, fits, highest baud rate then highest bit rate" speaks of the modes, *)
+(* whatever their offsets: it is judged on every mode whose side of the threshold is the same under each of the    *)
+(* offsets defined for its baud rate (alts: the worst-channel figures of the mode propagated alone under the OTHER *)
+(* offsets); a mode whose side depends on the offset applied is left unjudged (its figure is put on the threshold, *)
+(* inside the band).                                                                                              *)
+SameSide(m, w) == LET a == [m EXCEPT !.worst = w]
+                  IN  (Feasible(m) /\ Feasible(a)) \/ (Infeasible(m) /\ Infeasible(a))
+OffsetRobust(m, alts) == \A w \in alts : SameSide(m, w)
+UnderOffsets(m, alts) == IF OffsetRobust(m, alts) THEN m ELSE [m EXCEPT !.worst = m.thr]
+
+-----------------------------------------------------------------------------
 (* Composition law, reciprocal-linear at 0.1 nm, units of 1e-9:                                               *)
 (*     inv(rx) = inv(line) + inv(tx) + SUM_k inv(adddrop_k)                                                   *)
 (* line: what the line delivered (signal / (ASE + NLI) referred to 0.1 nm), tx: the mode's transmitter OSNR,   *)
 (* adds: one entry per add/drop stage the path crosses - each exactly once.                                   *)
 Composed(line, tx, adds) == line + tx + SumSeq(adds)
 
-(* Which OSNR an add/drop stage contributes is CONFIGURATION:                                                  *)
+(* Which OSNR an add/drop stage contributes to a carrier is CONFIGURATION:                                       *)
 (*   stage = [kind, sel, profiles, dflt]                                                                        *)
 (*     kind      "add" or "drop" (the ROADM next to the emitting / receiving transceiver)                       *)
-(*     profiles  the impairment profiles of the ROADM's type AS LISTED: sequence of [id, kind, inv]             *)
+(*     profiles  the impairment profiles of the ROADM's type AS LISTED: sequence of [id, kind, ranges]          *)
+(*               ranges: the frequency ranges of the profile AS LISTED, [lo, hi, inv] (inv: reciprocal OSNR,    *)
+(*               NONE when the range does not define one).  Ranges may overlap: a carrier takes the FIRST       *)
+(*               listed range that contains its frequency and defines an OSNR (none: no contribution)           *)
 (*     sel       id of the profile the topology selects for this pair of degrees, NONE when it selects nothing  *)
 (*               (ids are arbitrary integers: 0 is an id like any other)                                        *)
 (*     dflt      reciprocal of (add_drop_osnr + 10log10 2), used when the type lists no profile of that kind     *)
 (* A selected profile is used whatever its id; otherwise the first listed profile of the stage's kind.          *)
-StageInv(st) ==
+(* f: the frequency of the carrier (any unit shared with lo / hi, only compared).                               *)
+RangeInv(ranges, f) ==
+  LET hit == {j \in 1..Len(ranges) : ranges[j].lo <= f /\ f <= ranges[j].hi /\ ranges[j].inv # NONE}
+  IN  IF hit = {} THEN 0 ELSE ranges[SetMin(hit)].inv
+StageInv(st, f) ==
   IF st.sel # NONE
-  THEN LET i == CHOOSE j \in 1..Len(st.profiles) : st.profiles[j].id = st.sel IN st.profiles[i].inv
+  THEN LET i == CHOOSE j \in 1..Len(st.profiles) : st.profiles[j].id = st.sel IN RangeInv(st.profiles[i].ranges, f)
   ELSE LET same == {j \in 1..Len(st.profiles) : st.profiles[j].kind = st.kind}
-       IN  IF same = {} THEN st.dflt ELSE st.profiles[SetMin(same)].inv
+       IN  IF same = {} THEN st.dflt ELSE RangeInv(st.profiles[SetMin(same)].ranges, f)
 StageOK(st) == st.sel = NONE \/ \E j \in 1..Len(st.profiles) : st.profiles[j].id = st.sel /\ st.profiles[j].kind = st.kind
-AddsOf(stages) == [k \in 1..Len(stages) |-> StageInv(stages[k])]
+AddsOf(stages, f) == [k \in 1..Len(stages) |-> StageInv(stages[k], f)]
 CompositionOK(rx, line, tx, adds, tol) == Within(rx, Composed(line, tx, adds), tol)
 
 -----------------------------------------------------------------------------
